@@ -28,7 +28,8 @@ def sampler_config(draw, kinds=ALL_KINDS, bounds="maybe", max_d=4, temps=(1.0, 1
     big = max_d >= 3 and draw(st.integers(0, 11)) == 0
     if big:
         # beyond the sizes small examples reach: more parameters (and, below, more walkers)
-        d = draw(st.integers(5, 9))
+        # (beyond 9: two-digit parameter indices - 'param_10' sorts before 'param_2' as a string)
+        d = draw(st.sampled_from([5, 6, 7, 8, 9, 9, 11, 12, 13, 25]))
     T = 1.0 if kind == "ensemble" else draw(st.sampled_from(temps))
     can_bound = kind in ("pca", "hmc", "ensemble")
     bounded = can_bound and (bounds == "always" or (bounds == "maybe" and draw(st.integers(0, 2)) == 0))
@@ -95,6 +96,8 @@ def sampler_config(draw, kinds=ALL_KINDS, bounds="maybe", max_d=4, temps=(1.0, 1
         # special inputs the properties still quantify over: integer-typed start values, a start
         # inside a zero-probability region
         special = draw(st.sampled_from(["none", "none", "none", "none", "int_start", "zero_prob_start"]))
+        if special == "none" and cfg["target"]["kind"] == "moat" and kind != "ensemble" and d <= 3 and draw(st.booleans()):
+            special = "zero_prob_start"  # (what the moat target is for: half of its chains start inside the moat)
         if special == "int_start" and cfg["target"]["kind"] in ("gauss", "laplace", "corrgauss"):
             cfg["int_start"] = True
         elif special == "zero_prob_start" and cfg["target"]["kind"] == "moat" and kind != "ensemble" and d <= 3:
